@@ -5,7 +5,7 @@ COMMON_ASSUME = [
     "debug-profile semantics (overflow checks on), 64-bit little-endian host",
 ]
 
-from extras import pod_features
+from extras import pod_features, macro_lab_c15, macro_lab_c18, macro_lab_c19
 
 PROPS = {
     "C01": {
@@ -127,6 +127,7 @@ PROPS = {
     "C18": {
         "lean_module": "SplProofs.C18",
         "streams": ["C18"],
+        "extra": [macro_lab_c18],
         "rule": "stream disc: random Unicode strings (all planes, combining marks, controls, whitespace at both ends, quotes, backslashes, empty, up to 4 KiB) rendered to attribute "
                 "source text with random valid rendering choices (raw strings with # fences, \\x \\u{…} with underscores/padding, \\n \\t \\0, line continuations); the real "
                 "discriminator-syn builder is run in-process on `#[discriminator_hash_input(<literal>)] struct S;`, its emitted byte string is compared with new_with_hash_input, with the sha2 "
@@ -137,6 +138,7 @@ PROPS = {
     "C19": {
         "lean_module": "SplProofs.C19",
         "streams": ["C19"],
+        "extra": [macro_lab_c19],
         "rule": "stream liberr: every code in [start-3, start+n+3] of TlvError / ListViewError / AccountResolutionError, edge codes and random u32, through TryFrom<u32>, FromPrimitive, "
                 "Display, to_str, ProgramError::from; non-trivial = code that maps to a variant (distinct by case line)",
         "trusted": ["thiserror Display of a brace-free #[error(\"…\")] is modelled as the text itself; validated by the stream for the library enums"],
@@ -145,6 +147,7 @@ PROPS = {
     "C15": {
         "lean_module": "SplProofs.C15",
         "streams": ["C15"],
+        "extra": [macro_lab_c15],
         "rule": "stream varlen-account: accounts in the runtime's serialized layout built in the harness (original_data_len word, key, owner, lamports, data_len word, data, 10 KiB spare) so that the real "
                 "AccountInfo::resize runs; histories of alloc_and_pack (repeated types) then realloc_and_pack_variable_len_with_repetition of first/middle/last entries: same size, to 0, grow by 1..2000, "
                 "shrink, grow beyond the 10 KiB limit, missing entries; after every op the full account data is compared with the model and with an independent encoder (other entries byte-identical, "
